@@ -341,7 +341,7 @@ theorem rt_array (cfg : Cfg) (c n : Bool) (t : Ty) (ht : RT cfg t) (hpw : PW t) 
       rw [readInt_encInt 4 _ rem _ (by decide) hin (by omega)]
       have h0 : ¬ ((vs.length : Int) < 0) := by omega
       simp only [Res.bind, h0, if_false]
-      rw [allocElems_ok cfg vs.length _ (by simp; omega)]
+      rw [allocElems_ok cfg vs.length _ (by simp; omega) (by simp; omega)]
       simp only [Res.bind]
       rw [rt_elems cfg hrec t ht hpw hwft hp vs hv.2 r _ (by omega)]
       simp only [Res.bind, Nat.sub_sub]
@@ -350,7 +350,7 @@ theorem rt_array (cfg : Cfg) (c n : Bool) (t : Ty) (ht : RT cfg t) (hpw : PW t) 
       rw [readUvarint_uvarint (vs.length + 1) rem _ (by omega) (by omega)]
       have h1 : ¬ (vs.length + 1 < 1) := by omega
       simp only [Res.bind, h1, if_false, Nat.add_sub_cancel]
-      rw [lenOfU_small cfg vs.length (by omega), allocElems_ok cfg vs.length _ (by simp; omega)]
+      rw [lenOfU_small cfg vs.length (by omega), allocElems_ok cfg vs.length _ (by simp; omega) (by simp; omega)]
       simp only []
       rw [rt_elems cfg hrec t ht hpw hwft hp vs hv.2 r _ (by omega)]
       simp only []
